@@ -650,6 +650,47 @@ func replayGen(rep *Report, r *Result) *ReplayOutcome {
 	in = protowire.AppendTag(in, %d, protowire.BytesType)
 	in = protowire.AppendBytes(in, b)
 `, keyWitness(f.Key), f.Num) + strings.ReplaceAll(usableAfter, "MSG", ms.Name)
+	case strings.HasSuffix(o.ctx.unit, ".unmarshal") && r.Res == "sat":
+		// the solver's model gives concrete input bytes: decode them with the generated code and with the reference
+		// (dynamicpb); confirmed when the generated code panics, rejects what the reference accepts, or decodes to
+		// something else (compared through the deterministic reference encoding)
+		in, ok := modelInputBytes(o)
+		if !ok {
+			return nil
+		}
+		body = fmt.Sprintf(`
+	full := %s
+	// the obligation speaks about one record: the bytes after it in the model are arbitrary, so every prefix is tried
+	for n := 1; n <= len(full) && !t.Failed(); n++ {
+		in := full[:n]
+		var m %s
+		var err1 error
+		func() {
+			defer func() {
+				if r := recover(); r != nil {
+					violated(t, "input %%x: Unmarshal panicked: %%v", in, r)
+				}
+			}()
+			err1 = proto.Unmarshal(in, &m)
+		}()
+		if t.Failed() {
+			return
+		}
+		ref := dynamicpb.NewMessage((&%s{}).ProtoReflect().Descriptor())
+		err2 := proto.Unmarshal(in, ref)
+		if err1 != nil && err2 == nil {
+			violated(t, "input %%x: rejected (%%v) but the reference decoder accepts it", in, err1)
+			return
+		}
+		if err1 == nil && err2 == nil {
+			b1, e1 := proto.MarshalOptions{Deterministic: true}.Marshal(&m)
+			b2, e2 := proto.MarshalOptions{Deterministic: true}.Marshal(ref)
+			if e1 == nil && e2 == nil && string(b1) != string(b2) {
+				violated(t, "input %%x: decoded message re-encodes to %%x, the reference's to %%x", in, b1, b2)
+			}
+		}
+	}
+`, goBytes(in), ms.Name, ms.Name)
 	default:
 		return nil
 	}
@@ -659,6 +700,8 @@ import (
 	"fmt"
 	"testing"
 
+	"google.golang.org/protobuf/types/dynamicpb"
+
 	"google.golang.org/protobuf/encoding/protowire"
 	"google.golang.org/protobuf/proto"
 	"google.golang.org/protobuf/reflect/protoreflect"
@@ -667,6 +710,7 @@ import (
 var _ = protowire.AppendTag
 var _ protoreflect.Kind
 var _ = proto.Size
+var _ = dynamicpb.NewMessage
 
 func violated(t *testing.T, f string, a ...interface{}) {
 	fmt.Println("GOVC-REPLAY: VIOLATED " + fmt.Sprintf(f, a...))
@@ -679,4 +723,64 @@ func TestGovcReplay(t *testing.T) {
 `, ms.Pkg.Types.Name(), body)
 	cmd, out, bad := runOverlayTest(pkgDir, src)
 	return &ReplayOutcome{Confirmed: bad, Cmd: cmd, Output: out, TestFile: src, Inputs: map[string]interface{}{"witness": "hand-written concretiser for obligation family " + o.Kind}}
+}
+
+// modelInputBytes reads input.Buf out of a model of a failing obligation of an unmarshal unit (at most 256 bytes; the
+// model is asked for the shortest of 16/64/256 bytes that still falsifies the obligation)
+func modelInputBytes(o *Obl) ([]int, bool) {
+	if o.OpaqueSpec {
+		// a model over uninterpreted wire functions says nothing about real bytes: ask again with their definitions
+		oo := *o
+		oo.OpaqueSpec = false
+		o = &oo
+	}
+	c := o.ctx
+	if c.entry == nil {
+		return nil, false
+	}
+	var buf SliceV
+	found := false
+	for ob, v := range c.entry.env {
+		if ob.Name() == "input" {
+			if sv, ok := v.(StructV); ok {
+				if b, ok := sv.F["Buf"].(SliceV); ok {
+					buf, found = b, true
+				}
+			}
+		}
+	}
+	if !found {
+		return nil, false
+	}
+	arr := c.sliceArr(c.entry, buf)
+	for _, n := range []int64{16, 64, 256} {
+		extra := and(c.leIdx(buf.Len, c.ilit(n)), "(= "+buf.Off+" "+c.ilit(0)+")")
+		vals, ok := evalTerms(o, extra, []string{buf.Len}, 20)
+		if !ok {
+			continue
+		}
+		ln, ok := smtValToBig(vals[buf.Len])
+		if !ok || ln.Int64() < 0 || ln.Int64() > n {
+			continue
+		}
+		var terms []string
+		for i := int64(0); i < ln.Int64(); i++ {
+			terms = append(terms, "(select "+arr+" "+c.ilit(i)+")")
+		}
+		extra2 := and(extra, "(= "+buf.Len+" "+c.ilit(ln.Int64())+")")
+		bv, ok := evalTerms(o, extra2, terms, 20)
+		if !ok {
+			continue
+		}
+		out := make([]int, 0, len(terms))
+		for _, t := range terms {
+			b, ok := smtValToBig(bv[t])
+			if !ok {
+				return nil, false
+			}
+			out = append(out, int(b.Int64()))
+		}
+		return out, true
+	}
+	return nil, false
 }
